@@ -161,6 +161,30 @@ def generate(repo):
             actions.append((name, events_sent(arm), calls(arm, "engine")))
     t["actions"] = actions
 
+    # open_substream_or_dial: the arms of `match self.service.dial(&peer)` (which ImmediateDialError is special)
+    osd = fn_body(msrc, "open_substream_or_dial")
+    dial_arms = []
+    if osd is None:
+        missing.append(("C16_DIAL_ARMS", K + "mod.rs", "fn open_substream_or_dial not found"))
+    else:
+        m = re.search(r"match\s+self\s*\.\s*service\s*\.\s*dial\s*\([^)]*\)\s*\{", osd)
+        if not m:
+            missing.append(("C16_DIAL_ARMS", K + "mod.rs", "match self.service.dial(..) not found"))
+        else:
+            mb = osd[m.end():match_brace(osd, m.end() - 1) - 1]
+            depth = 0
+            cur = ""
+            for ch in mb:
+                if ch in "{":
+                    depth += 1
+                elif ch in "}":
+                    depth -= 1
+                if depth == 0:
+                    cur += ch
+            for a in re.finditer(r"((?:Ok|Err)\((?:[^()]|\([^)]*\))*\))\s*=>", cur):
+                dial_arms.append(re.sub(r"\s+", "", a.group(1)))
+    t["dial_arms"] = dial_arms
+
     tsrc = read(K + "query/target_peers.rs")
     m = re.search(r"peers_to_succeed\s*:\s*match\s+quorum\s*\{", tsrc)
     need = []
@@ -226,6 +250,8 @@ def write(t):
         "(* on_query_action: (QueryAction variant, KademliaEvents sent, engine calls) *)",
         "Definition actions : list (string * list string * list string) :=\n  [" +
         ";\n   ".join("(%s, %s, %s)" % (s(n), strs(ev), strs(e)) for n, ev, e in t["actions"]) + "].",
+        "(* open_substream_or_dial: the patterns of `match self.service.dial(&peer)` *)",
+        "Definition dial_arms : list string := " + strs(t["dial_arms"]) + ".",
         "(* PutToTargetPeersContext::new, peers_to_succeed: (Quorum variant, expression) *)",
         "Definition need : list (string * string) := [" + "; ".join("(%s, %s)" % (s(a), s(e)) for a, e in t["need"]) + "].",
     ]
